@@ -17,13 +17,13 @@ MAXPAR = int(os.environ.get("RV_MAXPAR", "16"))
 
 
 def load_known(prop):
-    p = os.path.join(ROOT, "known_findings.json")
-    if not os.path.exists(p):
-        return {}
     out = {}
-    for e in json.load(open(p)):
-        if e.get("property") == prop and e.get("status") == "known":
-            out[e["key"]] = e
+    for p in (os.path.join(ROOT, "known_findings.json"), os.environ.get("RV_KNOWN_EXTRA")):
+        if not p or not os.path.exists(p):
+            continue
+        for e in json.load(open(p)):
+            if e.get("property") == prop and e.get("status") == "known":
+                out[e["key"]] = e
     return out
 
 
@@ -266,8 +266,9 @@ def _run(args, prop, tier, seed, mod, plan, outdir, t0):
         inconclusive.append(f"anchored mechanisms never entered: {unreached}")
     if unmon and not args.replay:
         inconclusive.append(f"monitors never evaluated: {unmon}")
-    if dead_cells and len(dead_cells) == len(results):
-        inconclusive.append("all workers died or timed out")
+    if dead_cells:
+        inconclusive.append(f"{len(dead_cells)} of {len(results)} workers died or timed out "
+                            f"(first: rc={dead_cells[0]['rc']} timed_out={dead_cells[0]['timed_out']})")
     if checks == 0:
         inconclusive.append("no oracle comparison was evaluated")
 
